@@ -634,6 +634,115 @@ def dtor_class(arm, self_id):
     return "opaque"
 
 
+def shares_helper(dl, lp, tyv, named, exit_node, ifs_):
+    """An early exit that skips define_dtor(ty) is harmless iff, on every path to it, the helper registered for the first
+    TypeId that received the same C name (if there is one) is registered for `ty` as well.  -> (ok, detail)"""
+    LEAK = ("the type is entered in `type_names` but define_dtor is skipped and no helper is shared, so `dtor_funcs` has no entry "
+            "for this TypeId and `free()` silently emits nothing for every field / element of this type: the `*_free` helper of "
+            "an enclosing record / variant / list leaks it")
+    if not ifs_:
+        return False, LEAK
+    inner, br = ifs_[-1]
+    blk = inner["then"] if br == "then" else inner.get("else")
+    if blk is None or blk.get("k") != "block":
+        return False, LEAK
+    st = blk["stmts"]
+    xi = next((i for i, s_ in enumerate(st) if s_.get("k") == "expr_stmt" and s_["e"] is exit_node), None)
+    if xi is None:
+        return False, "the exit is nested in a further condition: " + LEAK
+    # (1) the innermost condition binds the first TypeId of this C name
+    lc = [c for c in conjuncts(inner["cond"]) if c.get("k") == "let_cond"]
+    first = None
+    if br == "then" and len(lc) == 1 and synq.pat_head(lc[0]["pat"]).split("::")[-1] == "Some":
+        ids = [x["name"] for x in synq.walk(lc[0]["pat"]) if x.get("k") == "p_ident"]
+        first = ids[0] if len(ids) == 1 else None
+    if first is None:
+        return False, LEAK
+    ok1, why1 = first_id_origin(dl, lp, tyv, named, lc[0], exit_node)
+    # (2) an unconditional `if let Some(h) = dtor_funcs.get(&first) { dtor_funcs.insert(ty, h) }` precedes the exit
+    shares = []
+    for s_ in st[:xi]:
+        e = s_.get("e") if s_.get("k") == "expr_stmt" else None
+        if not e or e.get("k") != "if" or e.get("else") is not None:
+            continue
+        c = e["cond"]
+        if c.get("k") != "let_cond" or synq.pat_head(c["pat"]).split("::")[-1] != "Some":
+            continue
+        hs = [x["name"] for x in synq.walk(c["pat"]) if x.get("k") == "p_ident"]
+        src = c["e"]
+        while src.get("k") == "mcall" and src["method"] in ("cloned", "clone", "copied", "map", "as_ref", "as_deref"):
+            if src["method"] == "map" and not re.fullmatch(r"\|(\w+)\| \1\.(clone|to_string|to_owned)\(\)", render(src["args"][0]) if src["args"] else ""):
+                break
+            src = src["recv"]
+        if not (src.get("k") == "mcall" and src["method"] == "get" and render(src["recv"]).endswith(".dtor_funcs") and len(hs) == 1):
+            continue
+        key = render(src["args"][0]).lstrip("&*")
+        ins = [m_ for m_ in e["then"]["stmts"] if m_.get("k") == "expr_stmt" and m_["e"].get("k") == "mcall" and m_["e"]["method"] == "insert"
+               and render(m_["e"]["recv"]).endswith(".dtor_funcs")]
+        shares.append((key, [(render(m_["e"]["args"][0]).lstrip("&*"), re.sub(r"\.(clone|to_string|to_owned)\(\)$", "", render(m_["e"]["args"][1])))
+                             for m_ in ins], hs[0]))
+    if not shares:
+        return False, "no `if let Some(h) = dtor_funcs.get(..) { dtor_funcs.insert(..) }` precedes the exit unconditionally: " + LEAK
+    good = [(k, i_, h) for k, i_, h in shares if k == first and i_ == [(tyv, h)]]
+    det = "; ".join(f"looks up `{k}`, registers {['%s -> %s' % x for x in i_]}" for k, i_, h in shares)
+    if not good:
+        return False, (f"the helper must be looked up under the first TypeId of the name (`{first}`) and registered for this type "
+                       f"(`{tyv}`), but the code {det}")
+    if not ok1:
+        return False, why1
+    return True, f"shares the helper of the first TypeId with this C name ({det}); {why1}"
+
+
+def first_id_origin(dl, lp, tyv, named, letc, use):
+    """`if let Some(first) = D`: every non-None value of D is the TypeId stored in `prim_names` under this type's C name"""
+    d = letc["e"]
+    if d.get("k") != "path":
+        return False, f"the first TypeId comes from `{render(d)[:40]}`, not from a local"
+    from .C13 import tail_values, pat_path
+    b = lookup(dl.node, d["path"], use)
+    if not b or b[0] != "let":
+        return False, f"`{d['path']}` is not a `let` binding"
+    pth = pat_path(b[1]["pat"], d["path"])
+    if pth is None:
+        return False, f"`{d['path']}`: binding pattern not understood"
+    vals = tail_values(b[1].get("init"), pth)
+    cname = None
+    if named:
+        a1 = [x for x in named if pos(x) < pos(use)][-1]["args"][1]
+        cname = a1["path"] if a1.get("k") == "path" else None
+    seen = 0
+    for v in vals:
+        if v is None:
+            return False, f"a value of `{d['path']}` has an unknown shape"
+        if v.get("k") == "path" and v["path"] == "None":
+            continue
+        locs = {x["path"] for x in synq.walk(v) if x.get("k") == "path" and "::" not in x["path"] and x["path"] not in ("Some", "None", tyv)}
+        if len(locs) != 1:
+            return False, f"`{render(v)[:50]}`: not a single candidate id"
+        fl = lookup(dl.node, next(iter(locs)), v)
+        init = fl[1].get("init") if fl and fl[0] == "let" else None
+        r = render(init) if init is not None else ""
+        m_ = re.fullmatch(r"\*?\(?\*?(.*)\.prim_names\.entry\((\w+)(?:\.clone\(\))?\)\.or_insert\((\w+)\)\)?", r)
+        if not m_ or m_.group(3) != tyv:
+            return False, f"the candidate id `{next(iter(locs))}` = `{r[:60]}` is not `prim_names.entry(<name>).or_insert({tyv})`"
+        if cname is not None:
+            nb = lookup(dl.node, cname, use)
+            kb = lookup(dl.node, m_.group(2), v)
+            same = m_.group(2) == cname and True
+            if not same:
+                # the tuple `(.., name)` hands the inner `name` out as the outer one: accept when it is that tuple's other component
+                outer = nb[1] if nb and nb[0] == "let" else None
+                same = outer is b[1] and kb is not None
+            if not same:
+                return False, f"`prim_names` is keyed by `{m_.group(2)}`, but the type is named `{cname}`"
+        if not re.search(r"\b" + re.escape(next(iter(locs))) + r"\s*!=\s*" + re.escape(tyv) + r"\b|\b" + re.escape(tyv) + r"\s*!=\s*" + re.escape(next(iter(locs))) + r"\b", render(v)):
+            return False, f"`{render(v)[:50]}` does not exclude the type itself"
+        seen += 1
+    if not seen:
+        return False, f"`{d['path']}` is never Some"
+    return True, f"`{d['path']}` is the TypeId recorded first in `prim_names` for the same C name"
+
+
 def r11_3_helpers(rep):
     core = synq.find_fn(ABI, "needs_deallocate")
     rep.saw(f"{ABI}::needs_deallocate")
@@ -854,19 +963,27 @@ def r11_3_helpers(rep):
                       and all(not (contains(arm_, x) and not contains(arm_, n)) for mm in synq.matches_in(lp["body"]) for arm_ in mm["arms"])]
             if onpath:
                 exits.append((n, ch))
-    rep.floor("R11.3", "define_live_types: early exits taken after the type received its C name", len(exits), 1)
+    rep.floor("R11.3", "define_live_types: early exits taken after the type received its C name", len(exits), 2)
     seen_inst = {}
     for n, ch in exits:
-        conds = [("" if b == "then" else "not ") + render(i["cond"]) for i, b in ch if i.get("k") == "if"]
+        ifs_ = [(i, b) for i, b in ch if i.get("k") == "if"]
         handle = any(c.get("k") == "let_cond" and synq.pat_head(c["pat"]).endswith("TypeDefKind::Handle") and b == "then"
-                     for i, b in ch if i.get("k") == "if" for c in conjuncts(i["cond"]))
-        inst = "define_live_types: the early exit under `" + " && ".join(conds) + "` does not lose a free helper"
+                     for i, b in ifs_ for c in conjuncts(i["cond"]))
+        if handle:
+            inst, ok, det = "define_live_types: a handle type left without a free helper owns nothing", True, \
+                "only handles leave here, and define_dtor emits nothing for a handle"
+        else:
+            ok, det = shares_helper(dl, lp, tyv, named, n, ifs_)
+            cond_names = {x["path"] for i, b in ifs_ for x in synq.walk(i["cond"]) if x.get("k") == "path" and "::" not in x["path"]}
+            dup = False
+            for nm_ in cond_names:
+                b_ = lookup(dl.node, nm_, n)
+                if b_ and b_[0] == "let" and b_[1].get("init") is not None and "prim_names" in render(b_[1]["init"]):
+                    dup = True
+            inst = "define_live_types: a type whose C name was already defined keeps a free helper" if dup else \
+                "define_live_types: an early exit after naming the type does not lose a free helper"
         seen_inst[inst] = seen_inst.get(inst, 0) + 1
-        rep.ob("R11.3", inst + (f" (#{seen_inst[inst]})" if seen_inst[inst] > 1 else ""), handle,
-               "only handles leave early, and define_dtor emits nothing for a handle" if handle else
-               "the type is entered in `type_names` but define_dtor is skipped, so `dtor_funcs` has no entry for this TypeId and "
-               "`free()` silently emits nothing for every field / element of this type: the `*_free` helper of an enclosing "
-               "record / variant / list leaks it", dl.loc(n))
+        rep.ob("R11.3", inst + (f" (#{seen_inst[inst]})" if seen_inst[inst] > 1 else ""), ok, det, dl.loc(n))
     # ---- helpers registered for imported types survive the switch to exports exactly like the types' names
     rt = the_fn("remove_types_redefined_by_exports", self_ty="C")
     rep.saw(f"{REL}::remove_types_redefined_by_exports")
